@@ -24,5 +24,11 @@ def run(ctx):
 
     def nt(b):
         return len(b) >= 2
+    # wire level: which attributes actually leave in the UPDATE (LOCAL_PREF only to iBGP, OTC, ORIGINATOR_ID/CLUSTER_LIST)
+    wt_spec = importlib.util.spec_from_file_location("wt", os.path.join(os.path.dirname(__file__), "wiretx_common.py"))
+    wt = importlib.util.module_from_spec(wt_spec); wt_spec.loader.exec_module(wt)
+    wb = wt.cases(ctx, "wire attribute sets", Sessions=wt.ALLSESS, ASCounts={0, 2}, CommCounts={0, 2}, LCommCounts={0}, ClusterCounts={0, 2},
+                  UnknownSizes={0}, PfxCounts={1}, PfxLens={24}, Flavours={"plain", "otc", "med"})
+    ctx.replay("wiretx", wb, per_timeout=30, nontrivial=lambda b: True)
     ro.ribout_runs(ctx, designs, runs, sims, ("v4o8", "v6o60") if not big else ("v4o0", "v4o28", "v6o30", "v6o124"), nt,
                    60000 if big else 6000)
